@@ -15,25 +15,25 @@ import (
 )
 
 type serverAnchors struct {
-	ok       bool
-	missing  []string
-	cacheMW  *ssa.Function // closure returned by NewCache
-	proxyMW  *ssa.Function // closure returned by NewProxy
-	respMW   *ssa.Function // closure returned by NewResponder
-	maxAge   *ssa.Function // getCacheMaxAge
-	isPass   *ssa.Function
-	getKey   *ssa.Function
-	setStat  *ssa.Function
-	setAge   *ssa.Function
-	setResp  *ssa.Function
-	getResp  *ssa.Function
-	setMax   *ssa.Function
-	getMax   *ssa.Function
-	getStat  *ssa.Function
-	start    *ssa.Function
-	cacheA   *cacheAnchors
+	ok                    bool
+	missing               []string
+	cacheMW               *ssa.Function // closure returned by NewCache
+	proxyMW               *ssa.Function // closure returned by NewProxy
+	respMW                *ssa.Function // closure returned by NewResponder
+	maxAge                *ssa.Function // getCacheMaxAge
+	isPass                *ssa.Function
+	getKey                *ssa.Function
+	setStat               *ssa.Function
+	setAge                *ssa.Function
+	setResp               *ssa.Function
+	getResp               *ssa.Function
+	setMax                *ssa.Function
+	getMax                *ssa.Function
+	getStat               *ssa.Function
+	start                 *ssa.Function
+	cacheA                *cacheAnchors
 	cacheable, hitForPass *ssa.Function
-	getHTTPCache *ssa.Function
+	getHTTPCache          *ssa.Function
 }
 
 func (p *Program) serverAnchors() *serverAnchors {
@@ -588,8 +588,8 @@ func ruleMaxAge(c *Ctx, a *serverAnchors, want map[string]bool) {
 		}
 		res := pr.Results[0]
 		// classify header reads
-		var cc *Term          // the Cache-Control subject string
-		var ageGet *Term      // header.Get("Age")
+		var cc *Term            // the Cache-Control subject string
+		var ageGet *Term        // header.Get("Age")
 		setCookiePresence := "" // "values" | "get" | ""
 		for _, e := range pr.Events {
 			if e.Kind != "call" || e.Callee == nil {
@@ -1214,7 +1214,6 @@ func isHeaderCall2(t *Term, method, header string) bool {
 	s, ok := t.Args[1].StrVal()
 	return ok && strings.EqualFold(s, header)
 }
-
 
 // callsFunc: f (or a pike function it statically calls, to the given depth)
 // contains a static call of target.
